@@ -608,9 +608,9 @@ func c11Histories(c *work.Ctx) {
 			idx[i] = 0
 		}
 		for {
-			// histories of length 3: a fixed sixteenth of them (the alphabet has grown to 75 calls; all 420 000 take
+			// histories of length 3: a fixed thirty-second of them (the alphabet has grown to 75 calls; all 420 000 take
 			// more than an hour on 16 cores). The subset is a function of the history, so every run explores the same one.
-			if ord%c.NShards == c.Shard && (l < 3 || (idx[0]*7+idx[1]*3+idx[2])%16 == 0) {
+			if ord%c.NShards == c.Shard && (l < 3 || (idx[0]*7+idx[1]*3+idx[2])%32 == 0) {
 				hist := append([]int(nil), idx[:l]...)
 				// pool answers: the default (most recent object) and every single deviation
 				ex := &explore.Explorer{Bound: 1}
@@ -693,11 +693,11 @@ func c11BFS(c *work.Ctx) {
 	cold := c11Cold(c, calls)
 	maxDepth := 3
 	if !c.Quick() {
-		maxDepth = 5
+		maxDepth = 4
 	}
 	maxStates := 6000
 	if !c.Quick() {
-		maxStates = 20000
+		maxStates = 9000
 	}
 	c11SetPool(nil)
 	c.SelfSharded = true
